@@ -131,7 +131,25 @@ def _tables():
             up = q.upper_quoted(e) != e
             upok = q.upper_quoted(e) in (e, e.upper())
             escapes.append((a, b, dec, quo, up, upok))
+    # what `safely_quote` (urllib's `quote` behind QUOTED_SPLIT_RE) leaves alone: probed on the real function,
+    # every ASCII character (an escape sign is looked at with two non-hex neighbours too); every other code point
+    # must come back escaped
+    quote_safe = [c for c in range(0x80) if c != 0x25 and q.safely_quote("a" + chr(c) + "z") == "a" + chr(c) + "z"]
+    quote_pct = q.safely_quote("a%zz") == "a%25zz" and q.safely_quote("%") == "%25"
+    quote_non_ascii = all(
+        q.safely_quote(chr(c)) == "".join("%%%02X" % b for b in chr(c).encode("utf-8"))
+        for c in sorted(set(range(0x80, 0x3100)) | set(range(0x3100, MAXCP, 61)) | {0x7FF, 0x800, 0xFFFF, 0x10000, MAXCP - 1})
+        if not (0xD800 <= c < 0xE000)
+    )
+    unsafe_sets = {}
+    for name in ("UNSAFE_FOR_AUTH_ITEM", "UNSAFE_FOR_PATH", "UNSAFE_FOR_QUERY_ITEM", "UNSAFE_FOR_FRAGMENT"):
+        v = getattr(q, name, b"")
+        unsafe_sets[name] = sorted(set(bytearray(v))) if isinstance(v, (bytes, bytearray)) else []
     return {
+        "quote_safe_ascii": quote_safe,
+        "quote_escapes_stray_percent": quote_pct,
+        "quote_escapes_non_ascii": quote_non_ascii,
+        "unsafe_sets": unsafe_sets,
         "urlsplit_removed": to_ranges(removed),
         "urlsplit_stripped_start": to_ranges(stripped_start),
         "urlsplit_stripped_end": to_ranges(stripped_end),
@@ -174,6 +192,14 @@ def gen_c03_classes():
     out.append("/-- code points `urlsplit` strips in front of the URL / at its end -/")
     out.append("def urlsplitStrippedStartRanges : List (Nat × Nat) := %s" % lean_ranges(t["urlsplit_stripped_start"]))
     out.append("def urlsplitStrippedEndRanges : List (Nat × Nat) := %s" % lean_ranges(t["urlsplit_stripped_end"]))
+    out.append("")
+    out.append("/-- the ASCII code points `ural.quote.safely_quote` leaves alone (probed on the function: `a` + c + `z` comes back")
+    out.append("unchanged; `%` apart) -/")
+    out.append("def quoteSafeAscii : List Nat := %s" % ("[" + ", ".join(str(c) for c in t["quote_safe_ascii"]) + "]"))
+    out.append("/-- `safely_quote` escapes a `%` that does not start an escape -/")
+    out.append("def quoteEscapesStrayPercent : Bool := %s" % lb(t["quote_escapes_stray_percent"]))
+    out.append("/-- `safely_quote` turns every non-ASCII code point (probed: U+0080–U+30FF, every 61st code point above, the UTF-8 length boundaries) into the escapes of its UTF-8 bytes -/")
+    out.append("def quoteEscapesNonAscii : Bool := %s" % lb(t["quote_escapes_non_ascii"]))
     out.append("")
     out.append("/-- `%ab` for every pair of a probe alphabet: `(a, b, the decoder decodes it, safely_quote keeps it as an")
     out.append("escape, upper_quoted changes it, upper_quoted returns it as is or upper-cased)` -/")
